@@ -13,6 +13,10 @@
                         no effect on shared state, so merging it with the re-read loses no outcome)
      Ack(w)             the call returns to the client: after a commit the revision id, after a callback error the
                         release-on-error block of updateAndReturnDoc runs and the error is returned
+     Restamp(w)         correctVersionAheadOfCAS: when the version a put / delete generated is ahead of the CAS its commit got
+                        (gateway clock ahead of the bucket's) the request sleeps and then re-persists _sync/_vv/_mou to obtain a
+                        fresh CAS - a second storage step of the same request, CAS-guarded on the CAS of its OWN commit and
+                        given up on a mismatch; the harness parks the writer at LeakyDataStore.UpdateXattrsCallback
      Quiesce            every writer has returned; the changes feed is read
    Named deviations of the transcribed code from the ideal CAS loop (each adds <<name, writer>> to `dev` when it fires):
      ResurrectNoCas    a writer that READ a tombstone and writes a live document goes through
@@ -32,7 +36,8 @@ CONSTANTS Writers,      \* all writer ids (1..N)
           InitLens,     \* lengths of the document's initial revision chain (0 = document absent)
           InitTombs,    \* subset of BOOLEAN: the initial tip is a tombstone (only with a non-empty chain)
           Modes,        \* subset of BOOLEAN: values of AllowConflicts
-          Kinds         \* subset of {"put", "push", "del"}
+          Kinds,        \* subset of {"put", "push", "del"}
+          AheadSets     \* sets of writers whose HLC version is generated while the gateway's clock is ahead of the bucket's
 
 (* revision identities: 0 = none, initial revisions 1..initLen, the revision a put / push of writer w creates is 10 + w
    (distinct bodies / pushed ids).  DeleteDoc's body is the constant {"_deleted":true}, so the id of a delete is a function
@@ -41,12 +46,12 @@ NoRes == [cls |-> "none", rev |-> 0, seq |-> 0]
 NoLoc == [tree |-> <<>>, cur |-> 0, seq |-> 0, unused |-> {}, recent |-> {}, casRead |-> -1, readTomb |-> FALSE, readLive |-> FALSE, tomb |-> FALSE]
 
 VARIABLES
-  allow, initLen, initTomb, ws,             \* configuration of this behaviour (constant along it)
+  allow, initLen, initTomb, ws, aheadW,     \* configuration of this behaviour (constant along it)
   cas, tree, cur, seq, unused, recent,      \* the bucket document: cas (0 = absent), revision tree rev -> [p, d], winning rev,
                                             \*   sequence, unused_sequences, recent_sequences            (observable)
   last, released,                           \* sequence allocator: last sequence handed out; sequences published as unused (observable)
   pc, res, kind, parg,                      \* per writer: control state, returned value, inputs          (observable)
-  match, ph, att, loc, dso, uo, dev, top, lost, backIdx,  \* per writer locals: Put's captured matchRev, the pushed history
+  match, ph, att, loc, cc, dso, uo, dev, top, lost, backIdx,  \* per writer locals: Put's captured matchRev, the pushed history
                                             \*   (parent and its ancestors as the client knew them), attempts, computed document,
                                             \*   updateAndReturnDoc's docSequence / unusedSequences;
                                             \*   names of the deviations that fired in this behaviour; the commit with the highest sequence so
@@ -57,11 +62,11 @@ VARIABLES
                                             \*   the document (sequence or unused_sequences); sequences of the initial revisions
   hist                                      \* behaviour so far (exported for replay; hidden by VIEW)
 
-conf   == <<allow, initLen, initTomb, ws>>
+conf   == <<allow, initLen, initTomb, ws, aheadW>>
 bucket == <<cas, tree, cur, seq, unused, recent>>
 alloc  == <<last, released>>
 obsw   == <<pc, res, kind, parg>>
-hidden == <<match, ph, att, loc, dso, uo, dev, top, lost, backIdx>>
+hidden == <<match, ph, att, loc, cc, dso, uo, dev, top, lost, backIdx>>
 fd     == <<feed, quiesced>>
 ghost  == <<docSeqs, onDoc, initSeq>>
 impl   == <<bucket, alloc, obsw, hidden, fd>>
@@ -94,7 +99,7 @@ IsChain(t) == /\ \A r \in DOMAIN t : Cardinality(Children(t, r)) <= 1 /\ (t[r].p
 
 -----------------------------------------------------------------------------
 Init ==
-  /\ allow \in Modes /\ initLen \in InitLens /\ initTomb \in InitTombs /\ ws \in WriterSets
+  /\ allow \in Modes /\ initLen \in InitLens /\ initTomb \in InitTombs /\ ws \in WriterSets /\ aheadW \in AheadSets
   /\ (initLen = 0 => initTomb = FALSE)
   /\ cas = initLen
   /\ tree = [i \in 1..initLen |-> [p |-> i - 1, d |-> (initTomb /\ i = initLen)]]
@@ -102,7 +107,7 @@ Init ==
   /\ last = initLen /\ released = {}
   /\ pc = [w \in Writers |-> "idle"] /\ res = [w \in Writers |-> NoRes]
   /\ kind = [w \in Writers |-> ""] /\ parg = [w \in Writers |-> 0]
-  /\ match = [w \in Writers |-> 0] /\ ph = [w \in Writers |-> <<>>] /\ att = [w \in Writers |-> 0] /\ loc = [w \in Writers |-> NoLoc]
+  /\ match = [w \in Writers |-> 0] /\ ph = [w \in Writers |-> <<>>] /\ att = [w \in Writers |-> 0] /\ loc = [w \in Writers |-> NoLoc] /\ cc = [w \in Writers |-> -1]
   /\ dso = [w \in Writers |-> 0] /\ uo = [w \in Writers |-> <<>>] /\ dev = {} /\ top = [seq |-> initLen, rev |-> initLen] /\ lost = {} /\ backIdx = {}
   /\ feed = <<>> /\ quiesced = FALSE
   /\ docSeqs = <<>> /\ onDoc = 1..initLen /\ initSeq = [i \in 1..initLen |-> i]
@@ -170,17 +175,21 @@ ImplBegin(w, k, p) ==
   /\ kind' = [kind EXCEPT ![w] = k] /\ parg' = [parg EXCEPT ![w] = p] /\ match' = [match EXCEPT ![w] = p]
   /\ ph' = [ph EXCEPT ![w] = AncSeq(tree, p)]
   /\ pc' = [pc EXCEPT ![w] = "begun"]
-  /\ UNCHANGED <<bucket, alloc, res, att, loc, dso, uo, dev, top, lost, backIdx, fd>>
+  /\ UNCHANGED <<bucket, alloc, res, att, loc, cc, dso, uo, dev, top, lost, backIdx, fd>>
 
 ImplReadAndCompute(w) ==
   /\ att' = [att EXCEPT ![w] = 1]
   /\ ImplCompute(w)
-  /\ UNCHANGED <<bucket, released, res, kind, parg, ph, top, lost, backIdx, fd>>
+  /\ UNCHANGED <<bucket, released, res, kind, parg, ph, cc, top, lost, backIdx, fd>>
 
 Commit(w) ==
   /\ cas' = cas + 1 /\ tree' = loc[w].tree /\ cur' = loc[w].cur /\ seq' = loc[w].seq
   /\ unused' = loc[w].unused /\ recent' = loc[w].recent
-  /\ pc' = [pc EXCEPT ![w] = "committed"]
+  /\ cc' = [cc EXCEPT ![w] = cas + 1]
+  /\ \E nx \in (IF aheadW # {} /\ kind[w] # "push" THEN {"restamp", "committed"} ELSE {"committed"}) :
+        pc' = [pc EXCEPT ![w] = nx]
+        \* the hybrid clock is monotonic and a child's version is floored by its parent's: once some writer generated a version
+        \* ahead of the bucket's clock, later writers may be ahead too - or the clocks have met while the writer was parked
   /\ top' = (IF loc[w].seq > top.seq THEN [seq |-> loc[w].seq, rev |-> loc[w].cur] ELSE top)
   /\ UNCHANGED <<alloc, res, kind, parg, match, ph, att, loc, dso, uo, fd>>
 ImplCasWrite(w) ==
@@ -192,10 +201,17 @@ ImplCasWrite(w) ==
   ELSE IF loc[w].readLive /\ loc[w].tomb /\ nowTomb
        THEN /\ pc' = [pc EXCEPT ![w] = "errored"] /\ dev' = dev \cup {<<"DeleteRaceError", w>>}   \* Rosmar: MissingError, not retried;
             /\ released' = released \cup ({dso[w]} \ {0}) \cup Range(uo[w])              \*   the call returns through the release-on-error block
-            /\ UNCHANGED <<bucket, last, res, kind, parg, match, ph, att, loc, dso, uo, top, lost, backIdx, fd>>
+            /\ UNCHANGED <<bucket, last, res, kind, parg, match, ph, att, loc, cc, dso, uo, top, lost, backIdx, fd>>
   ELSE /\ att' = [att EXCEPT ![w] = att[w] + 1]
        /\ ImplCompute(w)
-       /\ UNCHANGED <<bucket, released, res, kind, parg, ph, top, lost, backIdx, fd>>
+       /\ UNCHANGED <<bucket, released, res, kind, parg, ph, cc, top, lost, backIdx, fd>>
+
+(* the post-commit re-stamp: metadata-only, guarded on the CAS of the writer's own commit; on a mismatch the writer gives up
+   ("a concurrent writer beat us to it; it's that writer's responsibility") - nothing but the CAS may change *)
+ImplRestamp(w) ==
+  /\ cas' = (IF cas = cc[w] THEN cas + 1 ELSE cas)
+  /\ pc' = [pc EXCEPT ![w] = "committed"]
+  /\ UNCHANGED <<tree, cur, seq, unused, recent, alloc, res, kind, parg, hidden, fd>>
 
 ImplAck(w) ==
   /\ IF pc[w] = "committed"
@@ -218,12 +234,13 @@ ImplQuiesce ==
 
 (* ghosts advance from the (primed) bucket document only - the same for every action *)
 GhostStep ==
-  /\ docSeqs' = (IF cas' # cas THEN Append(docSeqs, seq') ELSE docSeqs)
+  /\ docSeqs' = (IF cas' # cas /\ (tree' # tree \/ seq' # seq) THEN Append(docSeqs, seq') ELSE docSeqs)   \* a bare CAS re-stamp is not a write
   /\ onDoc'   = (IF cas' # cas THEN onDoc \cup {seq'} \cup unused' ELSE onDoc)
   /\ UNCHANGED <<initSeq, conf>>
 GhostBegin(w) == GhostStep
 GhostReadAndCompute(w) == GhostStep
 GhostCasWrite(w) == GhostStep
+GhostRestamp(w) == GhostStep
 GhostAck(w) == GhostStep
 GhostQuiesce == GhostStep
 
@@ -233,10 +250,12 @@ BeginOK(w, k, p) ==
   /\ w \in ws /\ pc[w] = "idle" /\ \A v \in ws : v < w => pc[v] # "idle"       \* writers are interchangeable: begin in id order
   /\ k \in Kinds /\ p \in DOMAIN tree \cup {0}
   /\ (k = "del" => p # 0)
+  /\ (aheadW # {} => k # "push")      \* the re-stamp is modelled for versions the gateway generates itself (put / delete)
   /\ (k = "push" /\ p = 0 => allow)       \* a parentless push onto a tombstone is a sanctioned second root (resurrection) - outside "single chain"
 Begin(w, k, p)    == BeginOK(w, k, p) /\ ImplBegin(w, k, p) /\ GhostBegin(w) /\ Step("Begin", w)
 ReadAndCompute(w) == pc[w] = "begun" /\ ImplReadAndCompute(w) /\ GhostReadAndCompute(w) /\ Step("RC", w)
 CasWrite(w)       == pc[w] = "computed" /\ ImplCasWrite(w) /\ GhostCasWrite(w) /\ Step("Cas", w)
+Restamp(w)        == pc[w] = "restamp" /\ ImplRestamp(w) /\ GhostRestamp(w) /\ Step("Restamp", w)
 Ack(w)            == pc[w] \in {"committed", "failed", "errored"} /\ ImplAck(w) /\ GhostAck(w) /\ Step("Ack", w)
 Quiesce           == /\ ~quiesced /\ \A w \in ws : pc[w] = "done"
                      /\ ImplQuiesce /\ GhostQuiesce
@@ -244,7 +263,7 @@ Quiesce           == /\ ~quiesced /\ \A w \in ws : pc[w] = "done"
 
 Next ==
   \/ \E w \in Writers : \/ \E k \in Kinds, p \in DOMAIN tree \cup {0} : Begin(w, k, p)
-                        \/ ReadAndCompute(w) \/ CasWrite(w) \/ Ack(w)
+                        \/ ReadAndCompute(w) \/ CasWrite(w) \/ Restamp(w) \/ Ack(w)
   \/ Quiesce
 Spec == Init /\ [][Next]_vars
 
@@ -281,13 +300,13 @@ FeedAnnouncesFinal ==     \* after quiescence the feed's last entry for the docu
 (* auxiliary / design invariants (model and pass C) *)
 TypeOK ==
   /\ cas \in Nat /\ seq \in Nat /\ last \in Nat /\ cur \in DOMAIN tree \cup {0}
-  /\ \A w \in Writers : pc[w] \in {"idle", "begun", "computed", "failed", "errored", "committed", "done"} /\ att[w] <= Cardinality(Writers)
+  /\ \A w \in Writers : pc[w] \in {"idle", "begun", "computed", "failed", "errored", "restamp", "committed", "done"} /\ att[w] <= Cardinality(Writers)
 SeqSane ==
   /\ seq <= last /\ (backIdx = {} => \A u \in unused : u < seq)
   /\ (cas > 0 => seq \in recent /\ unused \subseteq recent)
   /\ released \cap onDoc = {} /\ released \subseteq 1..last
 NotYetWritten == \A w \in Writers : pc[w] \in {"begun", "computed", "failed", "errored"} =>
-                   (W(w) \in DOMAIN tree => \E v \in Writers \ {w} : pc[v] \in {"committed", "done"} /\ W(v) = W(w))
+                   (W(w) \in DOMAIN tree => \E v \in Writers \ {w} : pc[v] \in {"restamp", "committed", "done"} /\ W(v) = W(w))
 CurIsWinner == cur \in Winners(tree)
 (* C07's accounting, shared: at quiescence every reserved sequence is carried by the document (now or earlier), listed as
    unused on it, or released *)
